@@ -337,6 +337,38 @@ void Ctx::c11() {
     }
 }
 
+// ------------------------------------------------------------------ C11x: detail::autoconnect_stream on its own
+// One stream object for the whole run (cancel() + close() + open() re-use it), so nothing is excused by service
+// generations: at no time are two connection attempts in progress, every operation completes exactly once, and once
+// faults stop the stream reconnects and the queued writes go out.
+void Ctx::c11x() {
+    for (auto& o : s.broker.overlaps)
+        fail("C11", o.resolve ? "resolve_overlaps_attempt" : "overlapping_attempts", o.text);
+    if (s.livelock) { fail("C11", "reconnect_livelock", "more than 200000 handler steps at one virtual instant"); return; }
+    for (auto& o : s.ops)
+        if (o.dones.size() > 1) fail("C11", "completed_twice", opstr(o) + " completed " + std::to_string(o.dones.size()) + " times");
+    if (s.budget_exhausted || !s.plan.knobs.final_heal) return;
+    // a cancelled trigger is told so: operations of a stream that was cancelled have all completed by the end
+    int final_gen = -1; bool running_at_end = false;
+    for (auto& o : s.ops) if (o.kind == OpKind::run) {
+        const Done* d = done(o);
+        if (o.init_seq < s.suffix_end_seq && (!d || d->seq > s.suffix_end_seq)) { running_at_end = true; final_gen = o.svc_gen; }
+    }
+    for (auto& o : s.ops) {
+        if (o.kind != OpKind::publish && o.kind != OpKind::run) continue;
+        if (!o.client_running && o.kind == OpKind::publish) continue;
+        const Done* d = done(o);
+        bool open_at_end = !d || d->seq > s.suffix_end_seq;
+        if (!open_at_end) continue;
+        if (o.init_seq > s.suffix_end_seq) continue;
+        if (running_at_end && o.svc_gen == final_gen) {
+            if (o.kind == OpKind::publish)
+                fail("C11", "no_connection_after_heal", opstr(o) + " still waiting for a connection " + std::to_string((s.suffix_end_t - s.heal_t) / SEC) + " s after the last fault");
+        } else
+            fail("C11", "cancelled_trigger_never_resolved", opstr(o) + " was never completed although its stream was cancelled and closed");
+    }
+}
+
 // ------------------------------------------------------------------ C12
 void Ctx::c12() {
     auto& B = s.broker;
